@@ -289,7 +289,17 @@ func genCase(t *rapid.T) *Case {
 		if strings.Contains(path, "//") {
 			continue
 		}
-		c.Reqs = append(c.Reqs, rt.Req{Method: gen.Pick(t, reqMethods, "reqmethod"), Host: host, Path: path})
+		q := rt.Req{Method: gen.Pick(t, reqMethods, "reqmethod"), Host: host, Path: path}
+		if gen.Chance(t, 1, 5, "escaped") {
+			// a request target with an escaped slash inside a segment: the router works on the escaped form for the request's own
+			// method and for every other method alike
+			segs := strings.Split(path, "/")
+			if k := gen.IntR(t, 1, len(segs)-1, "escat"); segs[k] != "" {
+				segs[k] = gen.Pick(t, []string{"a%2Fb", "x%2Fa", "a%2F"}, "escval")
+				q.Path, q.Escaped = strings.Join(segs, "/"), true
+			}
+		}
+		c.Reqs = append(c.Reqs, q)
 	}
 	return c
 }
